@@ -1248,6 +1248,18 @@ class Engine:
             half = z3.RealVal("1/2")
             # banker's rounding, as Python's round()
             return [(path, z3.If(frac > half, f + 1, z3.If(frac < half, f, z3.If(f % 2 == 0, f, f + 1))))]
+        if fv is round and len(args) == 2 and not is_sym(args[1]) and isinstance(args[1], int) and -30 <= args[1] <= 30:
+            v, nd = args
+            if not is_sym(v):
+                return [(path, round(v, nd))]
+            # round(x, n) over the reals: round-half-even of x*10^n, divided by 10^n (the result is a float for float x)
+            scale = z3.RealVal(10 ** nd) if nd >= 0 else z3.RealVal(1) / z3.RealVal(10 ** (-nd))
+            y = to_real(v) * scale
+            f = z3.ToInt(y)
+            frac = y - z3.ToReal(f)
+            half = z3.RealVal("1/2")
+            r = z3.If(frac > half, f + 1, z3.If(frac < half, f, z3.If(f % 2 == 0, f, f + 1)))
+            return [(path, z3.ToReal(r) / scale)]
         name = getattr(fv, "__qualname__", getattr(fv, "__name__", repr(fv)))
         hook = self.hooks.get(name)
         if hook is not None:
